@@ -7,8 +7,11 @@ Observed through the real library:
         scale_mean_pairwise_indices, summary_t_stats, summary_p_vals, _df, summary_pairwise_indices},
   _Slice.{columns_scale_mean, _columns_scale_mean_variance, columns_base, table_margin}   (primitive seams)
 against
-  (model) Lean `PairwiseLegacy.FullIn.display` / `LegIn.{tScale,pScale,dfScale,summaryT,summaryP,summaryDf}`
-          fed with the survey's tabulation; index sets = Python thresholding of the evaluated Lean terms;
+  (model) Lean `PairwiseLegacy.FullIn.displayFixed` (the code with repair F60: n / variance over every valid row) and
+          `FullIn.display` (before the repair: displayed rows only) / `LegIn.{tScale,pScale,dfScale,summaryT,summaryP,
+          summaryDf}` fed with the survey's tabulation; index sets = Python thresholding of the evaluated Lean terms.
+          A tree that behaves like the un-repaired model where the two differ gets the spec-level finding
+          `legacy.scale_mean_pairwise.computed-from-displayed-rows` (hiding rows changed values: C05);
   (spec)  the respondent-level pooled two-sample test (Lean `PairwiseLegacySpec` op and a Python oracle),
           and relations on the implementation's own outputs: antisymmetry of t, symmetry of p / df, t(a,a) = 0,
           a column never in its own set, secondary-alpha sets contain the primary ones, renumbering under a
@@ -83,16 +86,16 @@ KNOWN_HIDDEN = "legacy.scale_mean_pairwise.computed-from-displayed-rows"
 
 
 def _gen_case(rng):
-    nr = rng.choice([1, 2, 3, 3, 4, 4, 5])
-    nc = rng.choice([1, 2, 2, 3, 3, 4, 5])
-    numeric = rng.choice(["some"] * 5 + ["all"] * 3 + ["none"])
+    nr = rng.choice([1, 2, 3, 3, 4, 4, 5, 5])
+    nc = rng.choice([1, 2, 2, 3, 3, 3, 4, 5])
+    numeric = rng.choice(["some"] * 6 + ["all"] * 5 + ["none"])
     rows = gen.gen_var(rng, "cat", "v0", n=nr, numeric=numeric)
     cols = gen.gen_var(rng, "cat", "v1", n=nc, numeric=rng.choice(["none", "some"]))
     vars_ = [rows, cols]
     axes = U.axes_of(vars_)
     weighted = rng.random() < 0.5
-    n_resp = rng.choice([0, 2, 5, 10, 10, 20, 20, 40, 80])
-    sv = gen.gen_survey(rng, vars_, weighted=weighted, n_resp=n_resp, skew=rng.random() < 0.5)
+    n_resp = rng.choice([0, 2, 5, 10, 20, 20, 30, 40, 40, 60, 80])
+    sv = gen.gen_survey(rng, vars_, weighted=weighted, n_resp=n_resp, skew=rng.random() < 0.35)
     tr = {}
     if rng.random() < 0.85:
         tr["rows_dimension"] = U.gen_dim_transforms(rng, axes[0], p_prune=0.15, p_hide=0.4)
@@ -372,6 +375,10 @@ def evaluate(case, louts, ctx):
             if not common.num_close(xT[a][b], sT[a][b]) or not common.num_close(xP[a][b], sP[a][b]):
                 raise common.HarnessFault("repaired model != respondent-level spec at (%d,%d): %r vs %r" % (a, b, xT[a][b], sT[a][b]))
 
+    differs_m = [[not (common.num_close(mT[a][b], xT[a][b]) and common.num_close(mP[a][b], xP[a][b])) for b in range(n)]
+                 for a in range(n)]
+    # cells where the statement-level (respondent) test is comparable with the tree as found
+    okspec = [[has_values and not (col_diff[a] or col_diff[b] or deg[a][b] or differs_m[a][b]) for b in range(n)] for a in range(n)]
     tests = _read_tests(part, n)
     if not isinstance(tests, list) or len(tests) != n:
         findings.append({"kind": "model", "locus": "seam.legacy.pairwise_significance_tests.length",
@@ -392,6 +399,23 @@ def evaluate(case, louts, ctx):
             ctx.count("cells:summary-degenerate-skipped", sum(sdeg[a]))
         _cmp(findings, "model", "seam.legacy.summary_t_stats", "selected column %d" % a, keep(t_["summary_t_stats"]), keep(sT_[a]))
         _cmp(findings, "model", "seam.legacy.summary_p_vals", "selected column %d" % a, keep(t_["summary_p_vals"]), keep(sP_[a]))
+        if not case["weighted"] and isinstance(t_["summary_t_stats"], list) and isinstance(t_["summary_p_vals"], list) \
+                and len(t_["summary_t_stats"]) == n and len(t_["summary_p_vals"]) == n:
+            # statement level (unweighted survey): C13's column test on the margin proportions base_x / N, both with n = N,
+            # base_a + base_b - 2 degrees of freedom
+            N_ = float(sum(1 for r_ in plan["resps"] if any(r_["cin"][:nc])))      # valid on both variables
+            for b in range(n):
+                if col_diff[a] or col_diff[b]:
+                    continue
+                na_, nb_ = (float(sum(1 for r_ in plan["resps"] if r_["cin"][fc[k]])) for k in (a, b))
+                pa_, pb_ = C._fdiv(F(int(na_)), F(int(N_))), C._fdiv(F(int(nb_)), F(int(N_)))
+                ot = C._t_formula(pa_, N_, pb_, N_)
+                op = C._p_formula(ot, na_ + nb_ - 2)
+                if not (common.num_close(t_["summary_t_stats"][b], ot) and common.num_close(t_["summary_p_vals"][b], op)):
+                    findings.append({"kind": "spec", "locus": "legacy.summary_t_stats.spec", "detail":
+                                     "selected %d compared %d: impl t=%r p=%r, margin-proportion test on the respondents t=%r p=%r" % (
+                                         a, b, t_["summary_t_stats"][b], t_["summary_p_vals"][b], ot, op)})
+                    break
         # default alpha / only_larger, whatever the transforms say
         exp_s = [b for b in range(n) if C._sig(sP_[a][b], sT_[a][b], 0.05, True)]
         if not any(C._near(sP_[a][b], 0.05) for b in range(n)) and not any(sdeg[a]):
@@ -421,7 +445,6 @@ def evaluate(case, louts, ctx):
                 findings.append({"kind": "model", "locus": "seam.legacy.t_stats_scale_means", "detail":
                                  "selected %d compared %d: impl t=%r p=%r, model t=%r p=%r (repaired model t=%r p=%r)" % (
                                      a, b, g_t, g_p, mT[a][b], mP[a][b], xT[a][b], xP[a][b])})
-                continue
             if isinstance(g_t, float) and math.isfinite(g_t) and g_t != 0.0:
                 nontrivial = True
             if col_diff[a] or col_diff[b]:
@@ -482,7 +505,7 @@ def evaluate(case, louts, ctx):
     alt = None if la["alt"] is None else float(F(la["alt"]))
     ctx.count("alpha:%s" % ("pair" if alt is not None else "single"))
 
-    def check_sets(name, got, al, P, T, Px, Tx, err, degm):
+    def check_sets(name, got, al, P, T, Px, Tx, err, degm, Ps=None, Ts=None):
         if err is not None:
             if not (isinstance(got, dict) and got.get("raises") == err):
                 findings.append({"kind": "model", "locus": "seam.legacy.%s.raises" % name, "detail": "expected %s, got %r" % (err, got)})
@@ -506,17 +529,28 @@ def evaluate(case, louts, ctx):
                     break
                 if b in got[a]:
                     ctx.count("indices:members")
+            if Ps is not None:
+                # statement level: exactly the other columns with p < alpha (and a smaller mean in only-larger mode)
+                for b in range(n):
+                    if b == a or not okspec[a][b] or C._near(Ps[a][b], al) or C._near(P[a][b], al):
+                        continue
+                    want = C._sig(Ps[a][b], Ts[a][b], al, only_larger)
+                    if (b in got[a]) != want:
+                        findings.append({"kind": "spec", "locus": "legacy.%s.membership" % name, "detail":
+                                         "column %d: impl %r; position %d has respondent-level p=%r t=%r (alpha=%r only_larger=%r col_order=%r)" % (
+                                             a, got[a], b, Ps[a][b], Ts[a][b], al, only_larger, co)})
+                        break
         return got
 
     err_scale = None if n == 0 else (None if has_values else "TypeError")
-    g1 = check_sets("columns_scale_mean_pairwise_indices", i_idx, alpha, mP, mT, xP, xT, err_scale, deg)
+    g1 = check_sets("columns_scale_mean_pairwise_indices", i_idx, alpha, mP, mT, xP, xT, err_scale, deg, sP, sT)
     err_sum = "IndexError" if n == 0 else None
     check_sets("summary_pairwise_indices", i_sum, alpha, sP_, sT_, sP_, sT_, err_sum, sdeg)
     if alt is None:
         if i_alt is not None:
             findings.append({"kind": "spec", "locus": "legacy.columns_scale_mean_pairwise_indices_alt.not-None", "detail": "got %r" % (i_alt,)})
     else:
-        g2 = check_sets("columns_scale_mean_pairwise_indices_alt", i_alt, alt, mP, mT, xP, xT, err_scale, deg)
+        g2 = check_sets("columns_scale_mean_pairwise_indices_alt", i_alt, alt, mP, mT, xP, xT, err_scale, deg, sP, sT)
         if g1 is not None and g2 is not None:
             for a in range(n):
                 if not set(g1[a]) <= set(g2[a]):
